@@ -97,7 +97,8 @@ def fft_model(n, t_query, t_start, dt, n_all):
     x = (np.asarray(t_query) - t_start) / dt
     k0 = np.floor(x + 1e-9).astype(np.int64)
     frac = x - k0
-    frac[np.abs(frac) < 1e-6] = 0.0
+    # (no snapping of small fractions: a fraction of 1e-7 is a genuine off-grid time, and a round-off fraction of +-1e-12 next
+    # to a sample changes the interpolated value by 1e-12 of a sample difference)
     return on_grid(k0) * (1 - frac) + on_grid(k0 + 1) * frac
 
 
@@ -199,7 +200,7 @@ def run_case(case):
             # the stored step times[1]-times[0] carries a relative error eps*|t|/dt; after K samples the interpolation
             # position is off by K times that (in samples), and neighbouring samples differ by up to 2*scale
             K = float(np.max(np.abs((tq - t[0]) / dts))) + n_all
-            cond += 2 * 4e-16 * float(np.max(np.abs(t))) / dts * K      # the code and the reference each carry this error, independently rounded
+            cond += 4e-16 * float(np.max(np.abs(t))) / dts * K
         if impl == "fft":
             model = fft_model(n, tq, t[0], dts, n_all)
             if nyq_in:
